@@ -48,7 +48,7 @@ ELTS = [("opti32", "Option<i32>", "Any"), ("f64", "f64", "Small")]
 for t, E, alpha in ELTS:
     family(f"ins_extrema_{t}", lambda n, E=E, alpha=alpha: [f"ins_extrema::<{E}, {n}, {n + 1}>(Alpha::{alpha}, &mut fl);"],
            INS + [("fl.shifted", "the arg-minimum moved past the inserted null", 1), ("fl.stayed", "the arg-minimum stayed in place", 1)],
-           [[0, 1], [2], [3]] if t == "opti32" else [[2], [3]], [[4]] if t == "opti32" else [[0, 1], [4]])
+           [[0, 1], [2], [3]], [[4]])
 
 family("ins_sum_opti32", lambda n: [f"ins_sum::<{n}, {n + 1}>(&mut fl);"], INS, [[0, 1, 2], [3]], [[4]])
 
@@ -64,13 +64,13 @@ QSINGLE = [("fl.before_valid", "the null is inserted before the single valid ele
 QELTS = [("opti32", "Option<i32>", "Small"), ("f64", "f64", "Small")]
 for t, E, alpha in QELTS:
     family(f"ins_quantile_{t}", lambda n, E=E, alpha=alpha: [f"ins_quantile::<{E}, {n}, {n + 1}>(Alpha::{alpha}, false, &mut fl);"],
-           QMAIN, [[0, 1], [2]] if t == "opti32" else [[2]], [[3]] if t == "opti32" else [[0, 1], [3]], stub=True, solver="minisat")
+           QMAIN, [[0, 1], [2]], [[3]], stub=True, solver="minisat")
     family(f"ins_median_{t}", lambda n, E=E, alpha=alpha: [f"ins_median::<{E}, {n}, {n + 1}>(Alpha::{alpha}, false, &mut fl);"],
-           QMAIN, [[0, 1], [2]] if t == "opti32" else [[2]], [[3]] if t == "opti32" else [[0, 1], [3]], stub=True, solver="minisat")
+           QMAIN, [[0, 1], [2]], [[3]], stub=True, solver="minisat")
     family(f"quantile_single_valid_{t}", lambda n, E=E, alpha=alpha: [f"ins_quantile::<{E}, {n}, {n + 1}>(Alpha::{alpha}, true, &mut fl);"],
-           QSINGLE, [[1]] if t == "f64" else [], [[2]] if t == "f64" else [[1], [2]], stub=True, solver="minisat")
+           QSINGLE, [[1]], [[2]], stub=True, solver="minisat")
     family(f"median_single_valid_{t}", lambda n, E=E, alpha=alpha: [f"ins_median::<{E}, {n}, {n + 1}>(Alpha::{alpha}, true, &mut fl);"],
-           QSINGLE, [[1]] if t == "opti32" else [], [[2]] if t == "opti32" else [[1], [2]], stub=True, solver="minisat")
+           QSINGLE, [[1]], [[2]], stub=True, solver="minisat")
 
 # encoding independence
 EDECL = "let mut fl = EFl::default();"
